@@ -26,6 +26,7 @@ BASE = dict(ActStrict=True, ShiftByMin=True, LatentCPs=set(), DoEmit=True)
 CFG = {
     "quick2": dict(Temps={0, 100, 200}, CPs={1, 2}, DTCs={0, 50}, MaxStreams=2, NZones=2, Ladders={0, 1, 2, 3, 4}),
     "quick3": dict(Temps={0, 100, 200}, CPs={1, 2}, DTCs={0, 50}, MaxStreams=3, NZones=2, Ladders={0, 1, 2}),
+    "near": dict(Temps={120, 130, 140}, CPs={1, 2}, DTCs={0}, MaxStreams=2, NZones=2, Ladders={5}),
     "deep3": dict(Temps={0, 100, 200, 300}, CPs={1, 2}, DTCs={0, 50}, MaxStreams=3, NZones=3, Ladders={0, 1, 2, 3, 4}),
 }
 EMB_BASE = Emb("native", 100.0, 0.01, 1.0, True)
@@ -196,7 +197,7 @@ def check(prop, tier, run: Run, replay_case=None):
         return
     run.assumptions += ["site problems on the lattice under the native embedding (1 unit = 0.01 K, so the code's absolute 1 K level-matching window is 100 units)",
                         "reported numbers transported to TLC in fixed point (1e-4 lattice units), compared within 12 units (< 1e-6 of the total duty plus rounding)"]
-    names = ["quick2", "quick3"] if tier == "quick" else ["quick2", "deep3"]
+    names = ["quick2", "quick3", "near"] if tier == "quick" else ["quick2", "near", "deep3"]
     nontriv = set()
     for name in names:
         res = gen_cases(name)
